@@ -44,7 +44,7 @@ func init() {
 		Real:        []string{"app.LinkApplication (CreateBlock, PreRunBlock, CheckBlock incl. verifyTxsOnProcess workers, CommitBlock, election path)", "state processor/transition", "state.StateDB trie and kv mode (real kvState.wal file)", "vm/evm, vm/wasm", "mempool incl. tx cache (txHeap) and AddTx", "blockchain.BlockStore", "utxo.UtxoStore", "txmgr", "consensus.BlockExecutor.ApplyBlock", "p2p.ConManager (socket-free) as sink of the election callback", "secp256k1"},
 		Stub:        []string{"consensus state machine (commit signed by the harness with the validator keys)", "storage engine (SimDB)", "libxcrypto (pure-Go model: group arithmetic real, range proof transparent)", "fee-distribution WASM contract not deployed"},
 		Assumptions: []string{"runtime.NumCPU() is fixed per machine (recorded in the sample): the worker count (NumCPU+3)/4 is not varied, the order of the workers at the cache is", "process-wide singletons (BlockBalanceRecordsInstance, BlacklistInstance, UTXO rate getter) are shared by the replicas of a run; the rate getter is re-registered before each replica acts, balance records are off as in node start-up, no blacklist transactions are generated"},
-		QuickRuns:   96, QuickBudget: 55 * time.Second, ThoroughRuns: 3000, ThoroughBudget: 15 * time.Minute,
+		QuickRuns:   1400, QuickBudget: 55 * time.Second, ThoroughRuns: 20000, ThoroughBudget: 15 * time.Minute,
 		RunsPerProcess: 8, RunTimeout: 300 * time.Second,
 		Run: run,
 	})
@@ -455,6 +455,7 @@ func (w *world) checkGated(rp *replica, blk *types.Block) (bool, error) {
 		done <- res{ok, err}
 	}()
 	var parked []gateReq
+	idle := 0
 	for {
 		synctest.Wait()
 		for more := true; more; {
@@ -472,6 +473,9 @@ func (w *world) checkGated(rp *replica, blk *types.Block) (bool, error) {
 			default:
 				// neither parked callers nor a result: CheckBlock is blocked on
 				// something else (time); let the clock move
+				if idle++; idle > 100000 {
+					return false, fmt.Errorf("gatekeeper: CheckBlock neither finishes nor reaches the cache")
+				}
 				time.Sleep(time.Millisecond)
 				continue
 			}
